@@ -215,7 +215,7 @@ X86_DEFS = [
     Def("abs_2g", "abs", "defs", value=1 << 31, vclass="abs>=2^31"),
     Def("abs_4g5", "abs", "defs", value=(1 << 32) + 5, vclass="abs>=2^32"),
     Def("abs_2_63", "abs", "defs", value=1 << 63, vclass="abs>=2^63"),
-    Def("abs_defsym_2g", "abs", "cmd", value=1 << 31, vclass="abs>=2^31"),
+    Def("abs_defsym_2g", "abs", "cmd", value=1 << 31, vclass="defsym:abs>=2^31"),
     Def("undef_weak", "undefweak", "none", value=0, bind="weak"),
     Def("ifunc", "ifunc", "defs", size=0x36),
     Def("so_func", "func", "so", size=0x37),
@@ -382,9 +382,8 @@ def _x86_refs():
     a(Ref("TLSDESC:call", "R_X86_64_GOTPC32_TLSDESC+TLSDESC_CALL", "lea+call", "tls",
           "  sub $8,%rsp\n  leaq {s}@tlsdesc(%rip),%rax\n  call *{s}@tlscall(%rax)\n  add %fs:0,%rax\n"
           "  add $8,%rsp\n  ret\n", TLS))
-    a(Ref("DTPOFF64:block", "R_X86_64_DTPOFF64", "quad", "tls",
-          "  mov slot{i}(%rip),%rax\n  add rt_tls_block(%rip),%rax\n  ret\n", TLS, True,
-          data="  .quad {sa}@dtpoff\n", outs=("static", "static-pie", "pie", "nonpie-dyn")))
+    # R_X86_64_DTPOFF64 in an executable's data is not enumerated: GNU ld stores the dtp offset, ld.lld (and
+    # wild) the tp offset (they assume the LD->LE relaxation); the reference linkers disagree.
     a(Ref("DTPOFF64:ld", "R_X86_64_DTPOFF64+TLSLD", "quad", "tls",
           "  sub $8,%rsp\n  leaq {s}@tlsld(%rip),%rdi\n  call __tls_get_addr@PLT\n"
           "  add slot{i}(%rip),%rax\n  add $8,%rsp\n  ret\n", TLS, True,
@@ -524,7 +523,7 @@ def x86_link_argv(out, output, run_obj, sodir=".", roots=None):
 
 
 SO_ARGV = ["-shared", "-soname=libdefs.so", "--gc-sections", "-z", "noexecstack", "-o", "libdefs.so", "so.o"]
-DRIVER_ARGV = ["-no-pie", "--dynamic-linker=" + INTERP, "-z", "noexecstack", "-o", "driver", "start.o",
+DRIVER_ARGV = ["-no-pie", "--allow-shlib-undefined", "--dynamic-linker=" + INTERP, "-z", "noexecstack", "-o", "driver", "start.o",
                "libtest.so", LIBC, INTERP]
 
 
